@@ -33,6 +33,14 @@ func NewMailBox(r Receiver) MailBox {
 			if !ok {
 				return
 			}
+			if mail.Msg.Header.Type != net.Call &&
+				mail.Msg.Header.Type != net.Post {
+				// only calls and posts invoke a method:
+				// a cancel (or any other kind of message)
+				// carries the action id of the call it
+				// refers to and must not run it again.
+				continue
+			}
 			err := r.Receive(mail.Msg, mail.From)
 			if err != nil {
 				log.Printf("error while processing %v: %v",
